@@ -56,6 +56,7 @@ void __wrap_evutil_secure_rng_get_bytes(void *buf, size_t n)
 		unsigned long k = dnse_rng_id_calls++;
 		uint16_t v;
 		if (rng_mode == 0) v = (uint16_t)(0x1000 + k);
+		else if (rng_mode == 1) v = (k % 3 == 2) ? 0xffff : (uint16_t)(0x2fff - k / 3);
 		else v = (k % 3 == 2) ? 0xffff : (uint16_t)(0x2000 + k / 3);
 		memcpy(buf, &v, 2);
 		return;
@@ -388,6 +389,8 @@ int dnse_ns_collect(struct dnse_msg *out, int max)
 				memmove(t->in, t->in + 2 + l, t->inlen - 2 - l);
 				t->inlen -= 2 + l;
 			}
+			/* the client closed (or reset) the connection and everything it sent has been handed out: release the slot */
+			if (t->eof && t->inlen < 2) { close(t->fd); t->open = 0; }
 		}
 	}
 	return cnt;
